@@ -548,10 +548,12 @@ pub enum SrcClass {
     CropSim,
     YRef,
     YCrop,
+    CropM,
     DRef,
     DImg,
     DCrop,
     DCrop2,
+    DCropM,
 }
 #[derive(Clone, Copy, Debug, PartialEq, Eq)]
 pub enum DstClass {
@@ -573,6 +575,8 @@ pub fn src_class(k: Kind) -> SrcClass {
         Kind::Slice | Kind::Buffer => SrcClass::Ref,
         Kind::ImgAsSrc | Kind::Owned => SrcClass::Img,
         Kind::CropRef | Kind::CropNew => SrcClass::Crop,
+        Kind::CropMutAsSrc => SrcClass::CropM,
+        Kind::DynCropMutAsSrc => SrcClass::DCropM,
         Kind::Crop2 => SrcClass::Crop2,
         Kind::Sim => SrcClass::Sim,
         Kind::SimNoSplit => SrcClass::SimNoSplit,
@@ -588,7 +592,8 @@ pub fn src_class(k: Kind) -> SrcClass {
 pub fn dst_class(k: Kind) -> DstClass {
     match k {
         Kind::Slice | Kind::Buffer | Kind::Owned | Kind::ImgAsSrc => DstClass::Img,
-        Kind::CropRef | Kind::CropNew => DstClass::Crop,
+        Kind::CropRef | Kind::CropNew | Kind::CropMutAsSrc => DstClass::Crop,
+        Kind::DynCropMutAsSrc => DstClass::DCrop,
         Kind::Crop2 => DstClass::Crop2,
         Kind::Sim => DstClass::Sim,
         Kind::SimNoSplit => DstClass::SimNoSplit,
@@ -621,6 +626,10 @@ pub fn pair_ok(s: Kind, d: Kind) -> bool {
             | (S::CropSim, D::CropSim)
             | (S::YRef, D::YImg)
             | (S::YCrop, D::YCrop)
+            | (S::CropM, D::Img)
+            | (S::CropM, D::Crop)
+            | (S::DCropM, D::DImg)
+            | (S::DCropM, D::DCrop)
             | (S::DRef, D::DImg)
             | (S::DImg, D::DImg)
             | (S::DCrop, D::DImg)
@@ -808,6 +817,16 @@ pub fn with_typed2<P: PixelTrait, R, O: TypedOp2<P, R>>(
             let mut d = TypedCroppedImageMut::new(dp, dg.ox, dg.oy, dg.w, dg.h).unwrap();
             op.call(&s, &mut d)
         }
+        (S::CropM, D::Img) => unsafe {
+            let mut sp = TypedImage::<P>::from_pixels_slice(sg.pw, sg.ph, sb.raw_pixels_mut::<P>()).unwrap();
+            let s = TypedCroppedImageMut::from_ref(&mut sp, sg.ox, sg.oy, sg.w, sg.h).unwrap();
+            with_dst_img::<P, R>(di, db, |d| op.call(&s, d))
+        },
+        (S::CropM, D::Crop) => unsafe {
+            let mut sp = TypedImage::<P>::from_pixels_slice(sg.pw, sg.ph, sb.raw_pixels_mut::<P>()).unwrap();
+            let s = TypedCroppedImageMut::from_ref(&mut sp, sg.ox, sg.oy, sg.w, sg.h).unwrap();
+            with_dst_crop::<P, R>(di, db, |d| op.call(&s, d))
+        },
         (S::YRef, D::YImg) => {
             let s = YieldView { inner: src_ref::<P>(si, sb), id: 0, yield_rows: si.yield_rows, panic_at: si.panic_at };
             let (y, pa) = (di.yield_rows, di.panic_at);
@@ -972,6 +991,18 @@ pub fn with_dyn2<R, O: DynOp2<R>>(
             let mut dp = Image::from_slice_u8(dg.pw, dg.ph, db.raw_bytes_mut(), fir_pt(dpt)).unwrap();
             let mut dm = CroppedImageMut::new(&mut dp, dg.o2x, dg.o2y, dg.mw, dg.mh).unwrap();
             let mut d = CroppedImageMut::new(&mut dm, dg.ox - dg.o2x, dg.oy - dg.o2y, dg.w, dg.h).unwrap();
+            op.call(&s, &mut d)
+        },
+        (S::DCropM, D::DImg) => unsafe {
+            let mut sp = Image::from_slice_u8(sg.pw, sg.ph, sb.raw_bytes_mut(), fir_pt(spt)).unwrap();
+            let s = CroppedImageMut::new(&mut sp, sg.ox, sg.oy, sg.w, sg.h).unwrap();
+            with_ddst_img(di, db, dpt, |d| op.call(&s, d))
+        },
+        (S::DCropM, D::DCrop) => unsafe {
+            let mut sp = Image::from_slice_u8(sg.pw, sg.ph, sb.raw_bytes_mut(), fir_pt(spt)).unwrap();
+            let s = CroppedImageMut::new(&mut sp, sg.ox, sg.oy, sg.w, sg.h).unwrap();
+            let mut dp = Image::from_slice_u8(dg.pw, dg.ph, db.raw_bytes_mut(), fir_pt(dpt)).unwrap();
+            let mut d = CroppedImageMut::new(&mut dp, dg.ox, dg.oy, dg.w, dg.h).unwrap();
             op.call(&s, &mut d)
         },
         (a, b) => panic!("harness: dynamic view pair {:?}/{:?} is not compiled in", a, b),
